@@ -78,9 +78,52 @@ func (r *rewriter) collect(n ast.Node, acc *[]access, writes map[ast.Expr]bool) 
 			if recv, f, ok := r.deviceField(v); ok {
 				*acc = append(*acc, access{recv, f, writes[v]})
 			}
+		case *ast.Ident:
+			if r.isPkgVar(v) {
+				*acc = append(*acc, access{&ast.UnaryExpr{Op: token.AND, X: ast.NewIdent(v.Name)}, "package variable " + v.Name, writes[v]})
+			}
 		}
 		return true
 	})
+}
+
+// isPkgVar: a package-level variable of the package being instrumented (shared by all devices)
+func (r *rewriter) isPkgVar(id *ast.Ident) bool {
+	v, ok := r.info.Uses[id].(*types.Var)
+	if !ok || v.IsField() || v.Pkg() == nil || v.Pkg() != r.pkg.Types {
+		return false
+	}
+	if v.Parent() != r.pkg.Types.Scope() {
+		return false
+	}
+	switch v.Type().Underlying().(type) {
+	case *types.Signature, *types.Chan:
+		return false
+	}
+	if p, ok := v.Type().(*types.Pointer); ok { // e.g. the *zap.Logger: the pointer itself is read-only
+		_ = p
+	}
+	return true
+}
+
+// rootIdent: x in x, x.f.g, x[i], *x
+func rootIdent(e ast.Expr) *ast.Ident {
+	for {
+		switch v := e.(type) {
+		case *ast.Ident:
+			return v
+		case *ast.SelectorExpr:
+			e = v.X
+		case *ast.IndexExpr:
+			e = v.X
+		case *ast.ParenExpr:
+			e = v.X
+		case *ast.StarExpr:
+			e = v.X
+		default:
+			return nil
+		}
+	}
 }
 
 func (r *rewriter) writesOf(s ast.Stmt) map[ast.Expr]bool {
@@ -88,6 +131,9 @@ func (r *rewriter) writesOf(s ast.Stmt) map[ast.Expr]bool {
 	mark := func(e ast.Expr) {
 		if se, ok := rootSelector(e).(*ast.SelectorExpr); ok {
 			w[se] = true
+		}
+		if id := rootIdent(e); id != nil && r.isPkgVar(id) {
+			w[id] = true
 		}
 	}
 	switch v := s.(type) {
@@ -131,8 +177,10 @@ func dedup(as []access) []access {
 	seen := map[string]int{}
 	var out []access
 	for _, a := range as {
-		id, _ := a.recv.(*ast.Ident)
-		k := id.Name + "." + a.field
+		k := a.field
+		if id, ok := a.recv.(*ast.Ident); ok {
+			k = id.Name + "." + a.field
+		}
 		if i, ok := seen[k]; ok {
 			if a.write {
 				out[i].write = true
